@@ -135,6 +135,8 @@ def norm(t):
             if len(ups) < len(comps):
                 return ('upd', x, ups) if ups else x
         return ('agg', norm(t[1]), comps)
+    if h == 'ref' and len(t) == 2 and isinstance(t[1], tuple) and len(t[1]) == 2 and t[1][1] == () and isinstance(t[1][0], tuple) and len(t[1][0]) == 2 and t[1][0][0] == 'P':
+        return norm(t[1][0][1])     # `&*r` is `r`: the address of what a pointer points to is that pointer
     if h == 'cast' and len(t) == 4:
         x, ty = norm(t[2]), norm(t[3])
         if t[1] == 'IntToInt' and x[0] == 'op' and x[1] == 'BitAnd' and len(x) == 4:
